@@ -206,7 +206,7 @@ def run_body(stmts, ctx, env):
             c = const_eval(s.test, ctx, env)
             if c is None and isinstance(s.test, ast.BoolOp) and isinstance(s.test.op, ast.And):
                 rest = [v for v in s.test.values if const_eval(v, ctx, env) is not True]
-                if [ast.unparse(v) for v in rest] in (["self.temperature <= 0"], ["not self.temperature > 0"]) and len(s.body) == 1 and isinstance(s.body[0], ast.Raise):
+                if [ast.unparse(v) for v in rest] in (["self.temperature <= 0"], ["not self.temperature > 0"], ["not 0 < self.temperature < math.inf"]) and len(s.body) == 1 and isinstance(s.body[0], ast.Raise):
                     ev(ctx, "ECheckTemp")
                     continue
             if c is None:
@@ -223,9 +223,9 @@ def run_body(stmts, ctx, env):
                 if "isinstance(x, PackBitsTensor)" in src or "self.indices[0].dtype" in src or "self.implementation" in src:
                     run_body(s.orelse, ctx, env) if "PackBitsTensor" in src else None
                     continue
-                if re.fullmatch(r"self\.forward_sampling in \('gumbel_soft', 'gumbel_hard'\) and (self\.temperature <= 0|\(?not self\.temperature > 0\)?)", src):
+                if re.fullmatch(r"self\.forward_sampling in \('gumbel_soft', 'gumbel_hard'\) and (self\.temperature <= 0|\(?not self\.temperature > 0\)?|\(?not 0 < self\.temperature < math\.inf\)?)", src):
                     continue
-                if src in ("self.temperature <= 0", "not self.temperature > 0") and len(s.body) == 1 and isinstance(s.body[0], ast.Raise):
+                if src in ("self.temperature <= 0", "not self.temperature > 0", "not 0 < self.temperature < math.inf") and len(s.body) == 1 and isinstance(s.body[0], ast.Raise):
                     ev(ctx, "ECheckTemp")
                     continue
                 _fail("unknown data-dependent condition: " + src)
